@@ -33,7 +33,7 @@ import (
 	"verif/internal/ev"
 )
 
-const rule = "cases = (a) assign: 1..all exported config.Config fields (found by reflection) set from a valid base to values around " +
+const ruleText = "cases = (a) assign: 1..all exported config.Config fields (found by reflection) set from a valid base to values around " +
 	"each documented boundary (min-1,min,min+1,typical,max-int; floats 1.0,nextafter,NaN,+-Inf,huge; strings empty,space,unicode,paths), " +
 	"target directory fresh/empty/with an older manifest and other files; oracle = independent table of the constraints documented by " +
 	"Validate's messages: invalid => Validate and SaveManifest fail and the directory tree is byte-identical, valid => SaveManifest " +
@@ -51,7 +51,7 @@ const rule = "cases = (a) assign: 1..all exported config.Config fields (found by
 
 func TestMain(m *testing.M) {
 	ev.Silence()
-	rec := ev.Init("C20", rule)
+	rec := ev.Init("C20", ruleText)
 	for _, s := range staleRules() {
 		rec.Note(s)
 	}
@@ -309,9 +309,9 @@ func intCands(t *rapid.T, f finfo, cur *config.Config) []int64 {
 	if r := ruleFor(f.Name); r != nil {
 		switch r.Kind {
 		case minInt:
-			c = append(c, r.Min-1, r.Min, r.Min+1, r.Min-1, r.Min, r.Min+1)
+			c = append(c, r.Min-1, r.Min, r.Min+1, r.Min-1, r.Min, r.Min+1, r.Min-1, r.Min-1)
 		case rangeInt:
-			c = append(c, r.Min-1, r.Min, r.Min+1, r.Max-1, r.Max, r.Max+1)
+			c = append(c, r.Min-1, r.Min, r.Min+1, r.Max-1, r.Max, r.Max+1, r.Min-1, r.Max+1)
 		case aboveField:
 			if o := v.FieldByName(r.Other); o.IsValid() && isInt(o.Kind()) {
 				c = append(c, o.Int()-1, o.Int(), o.Int()+1, o.Int()+1)
@@ -441,7 +441,19 @@ func genSets(t *rapid.T, mode string) []Set {
 		sets = append(sets, Set{Field: f.Name, Val: v})
 		_ = setField(cur, f.Name, v, genRoot)
 	}
-	pick := func() finfo { return fs[rapid.IntRange(0, len(fs)-1).Draw(t, "field")] }
+	var constrained []finfo
+	for _, f := range fs {
+		if ruleFor(f.Name) != nil {
+			constrained = append(constrained, f)
+		}
+	}
+	pick := func() finfo {
+		// two of three picks go to a field with a documented constraint
+		if len(constrained) > 0 && rapid.IntRange(0, 2).Draw(t, "constrained") != 0 {
+			return constrained[rapid.IntRange(0, len(constrained)-1).Draw(t, "cfield")]
+		}
+		return fs[rapid.IntRange(0, len(fs)-1).Draw(t, "field")]
+	}
 	switch mode {
 	case "single":
 		add(pick(), "any")
@@ -588,36 +600,56 @@ func dedup(in []string) []string {
 }
 
 func classify(c *Case) (bool, []string) {
-	near, classes := classifySets(c.Sets)
-	classes = append([]string{"kind_" + c.Kind}, classes...)
+	near, setClasses := classifySets(c.Sets)
+	classes := []string{"kind_" + c.Kind}
 	nt := false
 	switch c.Kind {
 	case "assign":
 		nt = near
-		classes = append(classes, "dir_"+c.Dir)
+		for _, cl := range setClasses {
+			classes = append(classes, "assign:"+cl)
+		}
+		classes = append(classes, "assign:dir_"+c.Dir)
+		if len(c.Sets) == 1 {
+			classes = append(classes, "assign:single_field")
+		}
 	case "stored":
+		if len(c.Sets) > 0 {
+			classes = append(classes, "stored:non_default_base")
+		}
 		if c.Stored.Mode == "trunc_all" {
 			nt = true
-			classes = append(classes, "stored_all_truncations")
+			classes = append(classes, "stored:all_truncations", "truncation")
 		} else {
 			n, cl := classifyMuts(c.Sets, c.Stored.Muts)
 			nt = n
-			classes = append(classes, cl...)
+			for _, x := range cl {
+				classes = append(classes, "stored:"+x)
+			}
 		}
 	case "engine":
-		classes = append(classes, "engine_"+c.Engine.Mode)
+		classes = append(classes, "engine:"+c.Engine.Mode)
 		if c.Engine.Mode == "valid" {
 			nt = true // the writes always cross the configured memtable size (see runEngineValid)
 			classes = append(classes, engineDirClasses(c.Sets)...)
+			if c.Engine.Reopens > 1 {
+				classes = append(classes, "engine:two_reopens")
+			}
 		} else {
+			if c.Engine.PreFlush {
+				classes = append(classes, "engine:data_in_tables_and_log")
+			} else {
+				classes = append(classes, "engine:data_in_log_only")
+			}
 			if c.Engine.AllTrunc {
 				nt = true
-				classes = append(classes, "engine_all_truncations")
+				classes = append(classes, "engine:all_truncations", "truncation")
 			}
 			for _, m := range c.Engine.Damage {
-				classes = append(classes, "engine_damage_"+m.Op)
+				classes = append(classes, "engine:damage_"+m.Op)
 				if m.Op == "trunc" {
 					nt = true
+					classes = append(classes, "truncation")
 				}
 			}
 			if n, _ := classifyMuts(c.Sets, c.Engine.Damage); n {
